@@ -95,6 +95,9 @@ func c08E2EGrammarText(r *rand.Rand, pkg string) c08E2EGrammar {
 	for m := 0; m < 1<<uint(n); m++ {
 		fmt.Fprintf(&b, "'t%d': /t%d/\n", m, m)
 	}
+	for j := range leaves {
+		fmt.Fprintf(&b, "'k%d': /k%d/\n", j, j)
+	}
 	b.WriteString("\n:: parser\n\n%input Z;\n\n")
 	if nested {
 		b.WriteString("Z -> Root :\n    (?= Q) 'x' Inner 'e' -> OutA\n  | (?= !Q) 'x' 'z' -> OutB\n;\n\nQ :\n    'x' Inner 'e' ;\n\n")
@@ -121,7 +124,7 @@ func c08E2EGrammarText(r *rand.Rand, pkg string) c08E2EGrammar {
 			}
 			b.WriteString(") ")
 		}
-		fmt.Fprintf(&b, "Tok -> Alt%d\n", j)
+		fmt.Fprintf(&b, "Tok 'k%d' -> Alt%d\n", j, j)
 	}
 	b.WriteString(";\n\nTok :\n")
 	for m := 0; m < 1<<uint(n); m++ {
@@ -184,17 +187,20 @@ func c08E2E(c *fw.Ctx) {
 		mask int
 		z    bool
 		text string
+		tail int // which alternative's closing token the input carries
 	}
 	var jobs []genrun.Job
 	var metas []meta
 	for gi, g := range gs {
 		for m := 0; m < 1<<uint(g.nPred); m++ {
-			text := fmt.Sprintf("x t%d e", m)
-			metas = append(metas, meta{gi, m, false, text})
-			jobs = append(jobs, genrun.Job{ID: len(jobs), Pkg: pkgs[gi].Name, Mode: "parse", Text: text})
+			for j := range g.leaves {
+				text := fmt.Sprintf("x t%d k%d e", m, j)
+				metas = append(metas, meta{gi, m, false, text, j})
+				jobs = append(jobs, genrun.Job{ID: len(jobs), Pkg: pkgs[gi].Name, Mode: "parse", Text: text})
+			}
 		}
 		if g.nested {
-			metas = append(metas, meta{gi, 0, true, "x z"})
+			metas = append(metas, meta{gi, 0, true, "x z", -1})
 			jobs = append(jobs, genrun.Job{ID: len(jobs), Pkg: pkgs[gi].Name, Mode: "parse", Text: "x z"})
 		}
 		if g.recCanc {
@@ -231,6 +237,17 @@ func c08E2E(c *fw.Ctx) {
 			}
 			if leaf < 0 {
 				continue // cannot happen for a decision tree
+			}
+			if m.tail != leaf {
+				// the input continues with another alternative's closing token: it is not a sentence
+				if t.OK {
+					c.Violate("e2e/non-sentence-accepted/"+map[bool]string{true: "nested-in-predicate", false: "direct"}[g.nested],
+						fmt.Sprintf("options [%s], input %q: assignment mask %d selects Alt%d, the input closes with k%d; events %v\n%s", g.opts, m.text, m.mask, leaf, m.tail, t.Events, g.text),
+						map[string]string{"grammar.tm": g.text, "input.txt": m.text})
+				} else {
+					c.Count("e2e_wrong_tail_rejected", 1)
+				}
+				continue
 			}
 			want = []string{fmt.Sprintf("Alt%d", leaf)}
 			if g.nested {
